@@ -157,10 +157,10 @@ Proof.
   - inversion E; subst. auto.
 Qed.
 
-Lemma hit_subtree_fixed : forall R cse full s c, incl (tasks_of c) (rows (vis s) c) -> incl (tasks_of c) (reg s) ->
-  incl (tasks_of c) (hit_subtree (fixed R) cse full s c).
+Lemma hit_subtree_fixed : forall R cse full pc s c, incl (tasks_of c) (rows (vis s) c) -> incl (tasks_of c) (reg s) ->
+  incl (tasks_of c) (hit_subtree (fixed R) cse full pc s c).
 Proof.
-  intros R cse full s c H1 H2 x Hx. unfold hit_subtree. simpl. right. apply filter_In.
+  intros R cse full pc s c H1 H2 x Hx. unfold hit_subtree. simpl. right. apply filter_In.
   split; [apply H1; exact Hx|apply memn_In; apply H2; exact Hx].
 Qed.
 
@@ -219,7 +219,7 @@ Proof.
     intros c S Hin. simpl in Hin. rewrite A3 in Hin. destruct (Hj c S Hin) as (H1 & H2 & H3).
     split; [exact H1|]. split; [simpl; rewrite A4; exact H2|].
     rewrite (rows_subs_eq _ (com s) c Hsubs). exact H3. }
-  destruct e as [rg|v pl|t a r kids pl|t a|j full|roots]; cbn [step_event].
+  destruct e as [rg|v pl|t a r kids pl|t a|j full|roots|t a|j full]; cbn [step_event].
   - apply Hnew.
   - destruct (negb (alive s)); [exact Hinv|].
     pose proof (op_good_value R v s pl Hg) as Hh. simpl.
@@ -283,6 +283,20 @@ Proof.
     apply jobs_ok_add; [exact Hj| |exact H2|exact H3].
     apply hit_subtree_fixed; [rewrite (vis_clean s Hp); exact H3|exact H2].
   - apply Himp.
+  - destruct (negb (alive s)); [exact Hinv|]. simpl c_own.
+    destruct (get_call_node true (vis s) t a (reg s)) as [c|] eqn:Eg; [|exact Hinv].
+    apply get_call_node_In in Eg. destruct Eg as (_ & _ & _ & Hc).
+    destruct Hg as [Hg1 Hg2]. destruct (current_sound _ _ _ Hg2 Hc) as [Hr Hrows].
+    split; [split; assumption|]. split; [exact Hp|].
+    apply jobs_ok_add; [exact Hj| |exact Hr|rewrite <- (vis_clean s Hp); exact Hrows].
+    apply hit_subtree_fixed; assumption.
+  - destruct (negb (alive s)); [exact Hinv|].
+    destruct (nth_error (jobs s) j) as [[c Sj]|] eqn:En; [|exact Hinv].
+    destruct (memt c (nodes (vis s))); [|exact Hinv].
+    apply nth_error_In in En. destruct (Hj c Sj En) as (H1 & H2 & H3).
+    split; [exact Hg|]. split; [exact Hp|].
+    apply jobs_ok_add; [exact Hj| |exact H2|exact H3].
+    apply hit_subtree_fixed; [rewrite (vis_clean s Hp); exact H3|exact H2].
 Qed.
 
 Lemma Inv_run : forall R es, Inv (run (fixed R) es).
